@@ -14,6 +14,7 @@ import (
 	"github.com/cossacklabs/acra/decryptor/base"
 	base_mysql "github.com/cossacklabs/acra/decryptor/mysql/base"
 	"github.com/cossacklabs/acra/encryptor/base/config"
+	"github.com/cossacklabs/acra/encryptor/mysql"
 )
 
 // VerifNewHandler returns a Handler with only the parts the row processors use: a logger and a
@@ -55,4 +56,13 @@ func VerifUpdateFieldEncodedType(field *ColumnDescription, schemaStore config.Ta
 }
 
 // VerifChanged returns the changed flag and the origin type of a column description.
-func (field *ColumnDescription) VerifChanged() (bool, base_mysql.Type) { return field.changed, field.originType }
+func (field *ColumnDescription) VerifChanged() (bool, base_mysql.Type) {
+	return field.changed, field.originType
+}
+
+// VerifOnQuery runs the registered query observers on a query text (what ProxyClientConnection does for
+// COM_QUERY / COM_STMT_PREPARE before forwarding it); the observers remember the matched column settings.
+func (handler *Handler) VerifOnQuery(ctx context.Context, query string) error {
+	_, _, err := handler.queryObserverManager.OnQuery(ctx, mysql.NewOnQueryObjectFromQuery(query, handler.parser))
+	return err
+}
